@@ -803,9 +803,9 @@ interp!(run_one, One, OneVec, OneSlice, OneSliceMut, OneRef, OneRefMut, OnePtr, 
 interp!(run_two, Two, TwoVec, TwoSlice, TwoSliceMut, TwoRef, TwoRefMut, TwoPtr, TwoPtrMut, TwoIter, TwoIterMut, yes);
 interp!(run_flat4, Flat4, Flat4Vec, Flat4Slice, Flat4SliceMut, Flat4Ref, Flat4RefMut, Flat4Ptr, Flat4PtrMut, Flat4Iter, Flat4IterMut, yes);
 interp!(run_heap, Heap, HeapVec, HeapSlice, HeapSliceMut, HeapRef, HeapRefMut, HeapPtr, HeapPtrMut, HeapIter, HeapIterMut, yes);
-interp!(run_drh, DrH, DrHVec, DrHSlice, DrHSliceMut, DrHRef, DrHRefMut, DrHPtr, DrHPtrMut, DrHIter, DrHIterMut, no);
-interp!(run_drp, DrP, DrPVec, DrPSlice, DrPSliceMut, DrPRef, DrPRefMut, DrPPtr, DrPPtrMut, DrPIter, DrPIterMut, no);
-interp!(run_drn, DrN, DrNVec, DrNSlice, DrNSliceMut, DrNRef, DrNRefMut, DrNPtr, DrNPtrMut, DrNIter, DrNIterMut, no);
+interp!(run_drh, DrH, DrHVec, DrHSlice, DrHSliceMut, DrHRef, DrHRefMut, DrHPtr, DrHPtrMut, DrHIter, DrHIterMut, yes);
+interp!(run_drp, DrP, DrPVec, DrPSlice, DrPSliceMut, DrPRef, DrPRefMut, DrPPtr, DrPPtrMut, DrPIter, DrPIterMut, yes);
+interp!(run_drn, DrN, DrNVec, DrNSlice, DrNSliceMut, DrNRef, DrNRefMut, DrNPtr, DrNPtrMut, DrNIter, DrNIterMut, yes);
 interp!(run_nfirst, NFirst, NFirstVec, NFirstSlice, NFirstSliceMut, NFirstRef, NFirstRefMut, NFirstPtr, NFirstPtrMut, NFirstIter, NFirstIterMut, yes);
 interp!(run_nfirstf, NFirstF, NFirstFVec, NFirstFSlice, NFirstFSliceMut, NFirstFRef, NFirstFRefMut, NFirstFPtr, NFirstFPtrMut, NFirstFIter, NFirstFIterMut, yes);
 interp!(run_nmid, NMid, NMidVec, NMidSlice, NMidSliceMut, NMidRef, NMidRefMut, NMidPtr, NMidPtrMut, NMidIter, NMidIterMut, yes);
